@@ -403,6 +403,21 @@ func printerCase(in map[string]any) map[string]any {
 				out["compile_err"] = orig.err
 			}
 		}
+		// what format mode sorts the top-level declarations by, and where they are
+		var dinfo []any
+		for decl := range seq.Values(file.Decls()) {
+			rank, impOpt, name := printer.VerifDeclSort(decl)
+			sp := decl.Span()
+			dinfo = append(dinfo, map[string]any{
+				"rank": rank, "sub": impOpt, "name": vhlib.Hx([]byte(name)),
+				"empty": decl.Kind() == ast.DeclKindEmpty, "start": sp.Start, "end": sp.End,
+			})
+		}
+		out["decl_info"] = dinfo
+		if _, ok := out["tree"]; !ok {
+			tree, _, _ := printer.VerifTriviaDump(file.Stream())
+			out["tree"] = treeJSON(tree)
+		}
 		res := map[string]any{}
 		for _, ps := range presets() {
 			r := map[string]any{}
@@ -412,6 +427,8 @@ func printerCase(in map[string]any) map[string]any {
 			}
 			r["f1"] = vhlib.Hx([]byte(f1))
 			file2, nerr2, first2 := parse(path, f1)
+			tree1, _, _ := printer.VerifTriviaDump(file2.Stream())
+			r["tree1"] = treeJSON(tree1)
 			r["nerr2"] = nerr2
 			if nerr2 > 0 {
 				r["err2"] = first2
